@@ -406,6 +406,24 @@ def rule_for_tuple_pattern(text, dropped):
         text = text[:ps] + 'verif_item' + text[pe:bo] + f' let {pat} = verif_item;' + text[bo:]
 
 
+def rule_chunks_enumerate(text, dropped):
+    """`for (i, c) in X.chunks_exact(N).enumerate() {`  =>
+       `let mut verif_next: usize = 0; while verif_next < verif_chunk_count(&X, N) { let i = verif_next; verif_next += 1; let c = verif_chunk(&X, i, N);`
+    i.e. the iterator protocol spelled out (advance first, then the body), so `continue` keeps its meaning.
+    Chunk i of chunks_exact(N) is X[i*N .. i*N+N]; there are len/N chunks. Head only; body verbatim."""
+    rx = re.compile(r'for \((\w+), (\w+)\) in (\w+)\.chunks_exact\(([^()]*)\)\.enumerate\(\) \{')
+    def rep(m):
+        i, c, x, n = m.group(1), m.group(2), m.group(3), m.group(4)
+        new = (f'let mut verif_next: usize = 0; while verif_next < verif_chunk_count(&{x}, {n}) {{ let {i} = verif_next; '
+               f'verif_next += 1; let {c} = verif_chunk(&{x}, {i}, {n});')
+        dropped.append(('chunks-enumerate', m.group(0) + '  =>  ' + new))
+        return new
+    new, k = rx.subn(rep, text)
+    if k == 0:
+        raise SliceError('chunks-enumerate: pattern not found')
+    return new
+
+
 RULES = {
     'drop-tracing': rule_drop_tracing,
     'assert-eq': rule_assert_eq,
@@ -420,6 +438,7 @@ RULES = {
     'anon-lifetime': rule_anon_lifetime,
     'drop-metrics': rule_drop_metrics,
     'for-tuple-pattern': rule_for_tuple_pattern,
+    'chunks-enumerate': rule_chunks_enumerate,
 }
 
 
